@@ -706,11 +706,13 @@ static void assign_typed_value_to_self_member(
         return;
     }
 
-    AssignmentHandlers::store_typed_value_in_member_cell(*self_member,
-                                                         typed_value);
+    // 整数メンバーは宣言型で範囲チェックされる（s.member = v と同じ規則）
+    const std::string target_name = "self." + member_name;
+    AssignmentHandlers::store_typed_value_in_member_cell(
+        interpreter_, *self_member, typed_value, target_name);
     if (original_member) {
-        AssignmentHandlers::store_typed_value_in_member_cell(*original_member,
-                                                             typed_value);
+        AssignmentHandlers::store_typed_value_in_member_cell(
+            interpreter_, *original_member, typed_value, target_name);
     }
 
     {
